@@ -201,6 +201,45 @@ def sast_refactorings(which: int, style: int, args: int, decoy: int, layout: int
     return fin(hardsast.check("fix-deprecated-logging-warn", style, args, decoy, layout) is None)
 
 
+def lock_with_statement(kind: int, style: int, scope: int, collide: int, two: bool) -> bool:
+    """bad-lock-with-statement (complete real transformer chain, one result per reported with-item): `with
+    threading.K():` for the 5 lock classes under 3 import styles, at module level / in a function / inside an if,
+    alone or twice, while the generated variable name is free, is a module variable read afterwards, or is a parameter
+    / loop variable of the surrounding code: both programs are executed and print the same values.
+    post: _
+    """
+    from harness import refsast
+    from vlib.core import fin
+
+    return fin(refsast.check_lock(kind, style, scope, collide, two) is None)
+
+
+def hasattr_call(obj: int, ctx: int, quote: int, scope: int) -> bool:
+    """fix-hasattr-call: `hasattr(o, "__call__")` in 6 expression contexts x 7 benign objects (builtin, int, None,
+    instance of a class defining __call__, class, str, lambda) x quote style x scope; an unreported
+    `hasattr(o, 'real')` next to it stays; both programs print the same value.
+    post: _
+    """
+    from harness import refsast
+    from vlib.core import fin
+
+    return fin(refsast.check_hasattr(obj, ctx, quote, scope) is None)
+
+
+def lazy_logging_output(msg: int, call: int, xval: int, scope: int) -> bool:
+    """lazy-logging: 9 message constructions (`%` with one value / a tuple, `+` with the variable first, last or in
+    the middle, literals containing `%%` or a bare `%`, adjacent literals, parenthesised) x 6 logging calls (module
+    functions, log(level, ..), a logger object, getLogger(..).info, extra keyword) x 4 values of the variable
+    (plain, containing `%`, `%s`, empty) x scope: both programs are executed with a capturing handler on the root
+    logger; level and formatted message of every record agree (a formatting error counts as a difference).
+    post: _
+    """
+    from harness import refsast
+    from vlib.core import fin
+
+    return fin(refsast.check_log(msg, call, xval, scope) is None)
+
+
 def _load_registry():
     from codemodder.registry import load_registered_codemods
 
@@ -219,6 +258,10 @@ def warmup():
     sql_parameterization(2, 2, 1, 1)
     sql_parameterization_module(0, 1, 0, 0)
     sast_refactorings(0, 1, 1, 1, 1)
+    lock_with_statement(1, 1, 1, 1, True)
+    hasattr_call(3, 2, 1, 1)
+    lazy_logging_output(1, 3, 1, 1)
+    lazy_logging_output(2, 0, 0, 0)
 
 
 SPEC = {
@@ -233,9 +276,10 @@ SPEC = {
         "the complete real pipelines of remove-unnecessary-f-str, use-set-literal, use-walrus-if and fix-file-resource-leak on selector-built programs (value comparison by exec)",
         "sql-parameterization: complete real pipeline (SQLQueryParameterization, linearize_string_expression, format_string_parser, clean_code passes) on selector-built sqlite3 programs, exec oracle against an in-memory database",
         "fix-deprecated-logging-warn: complete real transformer chain with one result placed on the call",
+        "bad-lock-with-statement, fix-hasattr-call, lazy-logging: complete real transformer chains with results placed on the expressions their rules focus on (harness/refsast.py); both programs executed, stdout / log records / exception type compared",
     ],
     "bounds": {
-        "quick": "grammar `r = <expr>`: not-prefixed comparison chains of 1-2 operators out of == != < > <= >= is 'is not' in 'not in' over int names, a bool name, True, None, 0 and a container, bare / parenthesised / inside and-or contexts; and/or trees of depth <= 1 and all 3-atom shapes (with and without parentheses) over 5 of 8 startswith/endswith atoms and 5 of 7 isinstance/issubclass atoms.  Value sorts: unbounded ints, bools, None; predicates uninterpreted; per element name a 'denotes a 2-tuple' flag.  Whole-pipeline families (selector-built programs, exec oracle): use-generator, remove-unnecessary-f-str, use-set-literal, use-walrus-if, fix-file-resource-leak, sql-parameterization (4 construction styles x 1-3 parameters x 3 literal splits x inline / variable x function / module scope x 4 value tuples), fix-deprecated-logging-warn",
+        "quick": "grammar `r = <expr>`: not-prefixed comparison chains of 1-2 operators out of == != < > <= >= is 'is not' in 'not in' over int names, a bool name, True, None, 0 and a container, bare / parenthesised / inside and-or contexts; and/or trees of depth <= 1 and all 3-atom shapes (with and without parentheses) over 5 of 8 startswith/endswith atoms and 5 of 7 isinstance/issubclass atoms.  Value sorts: unbounded ints, bools, None; predicates uninterpreted; per element name a 'denotes a 2-tuple' flag.  Whole-pipeline families (selector-built programs, exec oracle): use-generator, remove-unnecessary-f-str, use-set-literal, use-walrus-if, fix-file-resource-leak, sql-parameterization (4 construction styles x 1-3 parameters x 3 literal splits x inline / variable x function / module scope x 4 value tuples), fix-deprecated-logging-warn, bad-lock-with-statement (5 classes x 3 import styles x 3 scopes x 3 name-collision shapes x 1-2 statements), fix-hasattr-call (7 objects x 6 contexts), lazy-logging (9 message constructions x 6 calls x 4 values x 2 scopes)",
         "thorough": "chains of up to 3 operators, all 8 / 7 atoms, left-parenthesised and negated shapes",
     },
     "assumptions": [
@@ -257,5 +301,8 @@ SPEC = {
         __import__("vlib.main", fromlist=["Xh"]).Xh("sql_parameterization", 500, 900),
         __import__("vlib.main", fromlist=["Xh"]).Xh("sql_parameterization_module", 500, 900),
         __import__("vlib.main", fromlist=["Xh"]).Xh("sast_refactorings", 300, 600),
+        __import__("vlib.main", fromlist=["Xh"]).Xh("lock_with_statement", 300, 600),
+        __import__("vlib.main", fromlist=["Xh"]).Xh("hasattr_call", 300, 600),
+        __import__("vlib.main", fromlist=["Xh"]).Xh("lazy_logging_output", 400, 800),
     ],
 }
